@@ -471,12 +471,6 @@ pub fn freshness(cfg: Config) -> Freshness {
 
 pub fn judge_plan(plan: &Plan, o: &Outcome, stats: &mut JudgeStats) -> Vec<Violation> {
     let cfg = Config::parse(&plan.config).unwrap_or(Config::F0);
-    if cfg == Config::F4 {
-        // racing file updates: only "no panic, no hang, glue intact" is judged
-        let mut v = oracle18::judge(o, &plan.pool, Freshness::Lifetime, stats);
-        v.retain(|x| x.rule != "R1-stale-or-foreign-zone");
-        return v;
-    }
     oracle18::judge(o, &plan.pool, freshness(cfg), stats)
 }
 
